@@ -48,6 +48,7 @@ type templateChecker struct {
 	registry template.Registry
 	params   []string
 	letVars  []string
+	letFrom  []int // for each let var, the number of used keys recorded when it was declared
 	forVars  []string
 	usedKeys []string
 }
@@ -57,7 +58,7 @@ func newTemplateChecker(reg template.Registry, tpl template.Template) *templateC
 	for _, param := range tpl.Doc.Params {
 		paramNames = append(paramNames, param.Name)
 	}
-	return &templateChecker{reg, paramNames, nil, nil, nil}
+	return &templateChecker{reg, paramNames, nil, nil, nil, nil}
 }
 
 func (tc *templateChecker) checkTemplate(node ast.Node) {
@@ -66,12 +67,12 @@ func (tc *templateChecker) checkTemplate(node ast.Node) {
 		// the value is evaluated before the variable exists
 		tc.checkLet(node.Name)
 		tc.recurse(node)
-		tc.letVars = append(tc.letVars, node.Name)
+		tc.declareLet(node.Name)
 		return
 	case *ast.LetContentNode:
 		tc.checkLet(node.Name)
 		tc.recurse(node)
-		tc.letVars = append(tc.letVars, node.Name)
+		tc.declareLet(node.Name)
 		return
 	case *ast.CallNode:
 		tc.checkCall(node)
@@ -94,6 +95,12 @@ func (tc *templateChecker) checkTemplate(node ast.Node) {
 	if parent, ok := node.(ast.ParentNode); ok {
 		tc.recurse(parent)
 	}
+}
+
+// declareLet brings the let variable into scope from this point on.
+func (tc *templateChecker) declareLet(varName string) {
+	tc.letVars = append(tc.letVars, varName)
+	tc.letFrom = append(tc.letFrom, len(tc.usedKeys))
 }
 
 // checkLet ensures that the let variable has an allowed name.
@@ -186,10 +193,19 @@ func (tc *templateChecker) recurse(parent ast.ParentNode) {
 
 	// "pop" the {let} variables, as well as their usages.
 	// (this is necessary to handle shadowing of @params by {let} vars)
+	// A usage belongs to a {let} only if it comes after the declaration; a
+	// usage of the same name before it refers to an outer variable or @param.
 	var letVarsGoingOutOfScope = tc.letVars[initialLetVars:]
+	var letFromGoingOutOfScope = tc.letFrom[initialLetVars:]
 	var usedKeysToKeep, usedLets []string
-	for _, key := range tc.usedKeys[initialUsedKeys:] {
-		if contains(letVarsGoingOutOfScope, key) {
+	for i, key := range tc.usedKeys[initialUsedKeys:] {
+		var usesLet = false
+		for j, letVar := range letVarsGoingOutOfScope {
+			if letVar == key && letFromGoingOutOfScope[j] <= initialUsedKeys+i {
+				usesLet = true
+			}
+		}
+		if usesLet {
 			usedLets = append(usedLets, key)
 		} else {
 			usedKeysToKeep = append(usedKeysToKeep, key)
@@ -209,6 +225,7 @@ func (tc *templateChecker) recurse(parent ast.ParentNode) {
 
 	tc.usedKeys = append(tc.usedKeys[:initialUsedKeys], usedKeysToKeep...)
 	tc.letVars = tc.letVars[:initialLetVars]
+	tc.letFrom = tc.letFrom[:initialLetVars]
 }
 
 func (tc *templateChecker) visitKey(key string) {
